@@ -1,7 +1,7 @@
 #!/bin/bash
 # usage: tools/seedrun.sh <seed-id> <dir-with-patch.diff> <demo_file> <dest_pkg_dir_rel> <go-test -run regex>
 # 1. confirms the seed in a scratch worktree (builds, baseline passes, demo fails with / passes without)
-# 2. applies it to /repo, runs every implemented check, undoes it
+# 2. runs every implemented check against that worktree (patch applied); /repo is not touched
 # 3. stores it under /verif/seeded/<seed-id>/
 set -u
 ID=$1; DIR=$2; DEMO=$3; DEST=$4; RUN=$5
@@ -23,21 +23,21 @@ rm -f "$DEST/$DEMO"
 for x in ${EXTRA:-}; do rm -f "$DEST/$x"; done
 base=$(go test -vet=off -count=1 ./... 2>&1 | grep -v "no test files" | grep -vc "^ok")
 cd /verif
-git -C /repo worktree remove --force $WT
 echo "confirm: demo without=$W with=$X baseline_nonok_lines=$base"
-# detection
-git -C /repo apply "$DIR/patch.diff" || exit 4
-mkdir -p /tmp/seedverif_$$; cp /verif/known_findings.json /verif/anchors.json /verif/fields.json /tmp/seedverif_$$/
+# detection: every implemented check (quick) against the worktree that carries the change
+# (same content as /repo with the patch applied; /repo itself stays untouched, so several
+# seeds can be confirmed at the same time)
+SV=$(mktemp -d /tmp/seedverif.XXXX); cp /verif/known_findings.json /verif/anchors.json /verif/fields.json $SV/
 det=""
 for p in $(bin/ndndcheck -list); do
-  out=$(bin/ndndcheck -prop $p -tier quick -repo /repo -verif /tmp/seedverif_$$ 2>&1)
+  out=$(bin/ndndcheck -prop $p -tier quick -repo $WT -verif $SV 2>&1)
   if echo "$out" | grep -q "^VIOLATION property"; then
     det="$det $p"
     echo "$out" | grep -E "^(VIOLATION|UNDECIDED):" | cut -c1-260 | head -4
   fi
 done
-git -C /repo checkout -- . ; git -C /repo status --short | head -3
-rm -rf /tmp/seedverif_$$
+rm -rf $SV
+git -C /repo worktree remove --force $WT
 echo "detected_by:${det:- NONE}"
 mkdir -p seeded/$ID
 cp "$DIR/patch.diff" "$DIR/$DEMO" seeded/$ID/
@@ -49,7 +49,7 @@ try: m=json.load(open(d+'/meta.json'))
 except Exception: m={}
 m['seed_id']=id
 m['confirmed']={'demo_without_change':w,'demo_with_change':x,'baseline_failing_lines_with_change':int(base),'demo_location':dest,'demo_run':run,
-  'what_i_ran':'scratch git worktree of /repo HEAD: demo without patch; git apply patch; go build ./...; demo with patch; go test -vet=off -count=1 ./...; then patch applied to /repo, every check run (quick), git checkout -- .'}
+  'what_i_ran':'scratch git worktree of /repo HEAD: demo without patch; git apply patch; go build ./...; demo with patch; go test -vet=off -count=1 ./...; then every check run (quick) against that worktree with the patch applied; worktree removed'}
 m['detected_by']=det.split()
 json.dump(m,open(f'/verif/seeded/{id}/meta.json','w'),indent=1)
 PY
